@@ -55,10 +55,10 @@ func init() { common.Register("C15", Run) }
 const (
 	lookNS   = "http://look.example/ns#"
 	absNS    = "http://abs.example/"
-	extraCtx = `{"lk":"http://look.example/ns#","lkid":"@id",
+	extraCtx = `{"lk":"http://look.example/ns#","lkid":"@id","lktype":"@type",
  "lkS":{"@id":"lk:S","@context":{"lkin":"lk:in"}},
  "LkT":{"@id":"lk:T","@context":{"lktp":"lk:tp"}},
- "lknode":"lk:node","lkjson":{"@id":"lk:json","@type":"@json"},"lknul":null}`
+ "lknode":"lk:node","lkgraph":{"@id":"lk:graph","@container":"@graph"},"lkjson":{"@id":"lk:json","@type":"@json"},"lknul":null}`
 )
 
 // ---------------------------------------------------------------- case input
@@ -641,9 +641,9 @@ func hasID(m map[string]any) bool {
 }
 
 var undefinedKinds = []string{"u-lit", "u-lit", "u-obj", "u-arr", "u-null", "u-kwalpha", "u-kwdigits", "u-empty", "u-nulterm",
-	"u-scoped-out", "u-typescoped-out", "u-in-nest", "u-in-reverse", "u-embedded-out"}
+	"u-scoped-out", "u-typescoped-out", "u-in-nest", "u-in-reverse", "u-embedded-out", "u-in-named-graph", "u-in-named-graph"}
 var definedKinds = []string{"d-compact", "d-abs", "d-unknown-scheme", "d-alias", "d-scoped-in", "d-typescoped-in", "d-json",
-	"d-embedded-ctx", "d-in-nest"}
+	"d-embedded-ctx", "d-in-nest", "d-in-named-graph"}
 
 // under an absolute @vocab every plain term is defined (vocab + term); what stays
 // undefined: keyword-like "@abc" keys and terms mapped to null
@@ -672,6 +672,8 @@ func (d *drv) inject(s site, kind string) (dropped [][]any, extra int, ok bool) 
 			return fmt.Sprintf("v%d", r.Intn(100))
 		}
 	}
+	// @type or its alias from the look-alike context
+	typeKey := func() string { return []string{"@type", "lktype"}[r.Intn(2)] }
 	switch kind {
 	case "u-lit":
 		k := d.z()
@@ -725,6 +727,12 @@ func (d *drv) inject(s site, kind string) (dropped [][]any, extra int, ok bool) 
 		return [][]any{appendPath(s.path, "@nest", k)}, 0, put("@nest", map[string]any{k: lit()})
 	case "d-in-nest":
 		return nil, 1, put("@nest", map[string]any{"lk:" + d.z(): "n"})
+	case "u-in-named-graph":
+		// a member of a node inside a named graph (@container: @graph)
+		k := d.z()
+		return [][]any{appendPath(s.path, "lkgraph", k)}, 1, put("lkgraph", map[string]any{"lk:a": "x", k: lit()})
+	case "d-in-named-graph":
+		return nil, 2, put("lkgraph", map[string]any{"lk:a": "x", "lk:" + d.z(): "y"})
 	case "u-in-reverse":
 		k := d.z()
 		return [][]any{appendPath(s.path, "@reverse", k)}, 0, put("@reverse", map[string]any{k: map[string]any{"@id": "urn:r:" + k}})
@@ -752,7 +760,7 @@ func (d *drv) inject(s site, kind string) (dropped [][]any, extra int, ok bool) 
 		return [][]any{appendPath(s.path, k)}, 0, put(k, lit())
 	case "u-typescoped-out":
 		// the type-scoped term lktp does not reach the nested node
-		v := map[string]any{"@type": "LkT", "lktp": "in-scope", "lknode": map[string]any{"lktp": "out-of-scope", "lk:a": "kept"}}
+		v := map[string]any{typeKey(): "LkT", "lktp": "in-scope", "lknode": map[string]any{"lktp": "out-of-scope", "lk:a": "kept"}}
 		return [][]any{appendPath(s.path, "lknode", "lknode", "lktp")}, 3, put("lknode", v)
 	case "d-compact":
 		return nil, 1, put("lk:"+d.z(), "c")
@@ -772,7 +780,7 @@ func (d *drv) inject(s site, kind string) (dropped [][]any, extra int, ok bool) 
 	case "d-scoped-in":
 		return nil, 1, put("lkS", map[string]any{"lkin": "s"})
 	case "d-typescoped-in":
-		return nil, 2, put("lknode", map[string]any{"@type": "LkT", "lktp": "t"})
+		return nil, 2, put("lknode", map[string]any{typeKey(): "LkT", "lktp": "t"})
 	case "d-json":
 		return nil, 1, put("lkjson", map[string]any{d.z(): json.Number("1"), "b": []any{true}})
 	}
@@ -1116,7 +1124,7 @@ func appendOnce(l []string, s string) []string {
 
 // ---------------------------------------------------------------- shards
 
-const shardSize = 40
+const shardSize = 30
 
 func obsCoq(r runObs) string {
 	switch r.out.Class {
@@ -1257,7 +1265,7 @@ func Run(cfg *common.Config) (*common.Report, error) {
 		}
 		d.evalAll(ins)
 	}
-	gen("inject", cfg.Pick(200, 2500))
+	gen("inject", cfg.Pick(160, 2500))
 	gen("setwrap", cfg.Pick(4, 40))
 	gen("nonabs", cfg.Pick(6, 60))
 	gen("emptykey", cfg.Pick(3, 30))
